@@ -230,6 +230,42 @@ pub fn exec_deep(input: &Value) -> Value {
 }
 
 pub fn generate(thorough: bool, seed: u64, em: &mut Emitter) {
+    // key-binding JWTs whose hash commitment is shorter or longer than the digest it is compared with (empty, a prefix,
+    // another algorithm's length, padded): the verifier answers with an error, whatever the comparison looks like inside
+    super::c05::generate_kinds(&["hash_prefix", "hash_empty", "hash_other_alg", "hash_extended", "hash_padded", "hash_prefix_dropped_disclosure", "hash_not_string"],
+                               if thorough { 400 } else { 42 }, seed ^ 0x10, em);
+    // the second-stage API on an object made from untrusted input: Holder::presentation(..).redact(..).build() with paths
+    // of one-, two-, three- and four-byte characters whose lengths fall inside each other's characters
+    {
+        let mut r = Rng::new(seed ^ 0xC10_0B);
+        let names = ["id", "n\u{e9}", "\u{540d}\u{524d}", "k\u{1F600}", "a", "ab\u{df}", "\u{7ff}\u{800}", "x\u{10348}y"];
+        for i in 0..(if thorough { 400 } else { 48 }) {
+            let mut rc = r.fork();
+            let r = &mut rc;
+            let mut m = serde_json::Map::new();
+            for n in names.iter() {
+                if !r.chance(2, 3) {
+                    continue;
+                }
+                let v = if r.chance(1, 3) {
+                    let inner = *r.pick(&names);
+                    json!({"in": 1, inner: [1, 2]})
+                } else {
+                    json!(r.below(9))
+                };
+                m.insert(n.to_string(), v);
+            }
+            let claims = Value::Object(m);
+            let marks = gen::gen_marking(r, &claims, true);
+            if let Some((token, tok, clear)) = super::c02::make_token(r, &claims, &marks, false, i % 2 == 0) {
+                let redact = super::c02::redaction_set(r, &claims, &marks);
+                let mut case = super::c02::present_case(&tok, &token, &clear, &redact, Value::Null, 1, json!({"kbpol": Value::Null}));
+                case["nontrivial"] = json!(true);
+                case["tag"] = json!("redact_multibyte_paths");
+                em.case("present", case);
+            }
+        }
+    }
     let mut r = Rng::new(seed ^ 0xC10);
     // (i) exhaustive strings over the characters the splitters look at
     let max_len = if thorough { 11 } else { 8 };
